@@ -14,6 +14,8 @@ machine of `lib/util/src/threadpool.c`).  Every theorem quantifies over
 There is no bound anywhere: the obligations are inductions over the length of the execution.
 -/
 import Sqfs.Proofs.Pool
+import Sqfs.Proofs.C09PoolX
+import Sqfs.Proofs.C09PoolFine
 namespace Sqfs.C09
 open Sqfs.Pool List
 
@@ -629,6 +631,325 @@ theorem refines_serial_prefix {cfg : Cfg} {n : Nat} {s : State} (hok : ∀ d, cf
   obtain ⟨cdone, h1, h2, _⟩ := invR_reachable hok hr
   exact ⟨cdone, h1, h2.symm⟩
 
+/-! ### beyond the base model: the per-worker user pointer, `set_worker_ptr`, `calloc` failure in `submit`
+
+`Model/C09PoolX.lean` adds `pool->workers[i].user`, `set_worker_ptr`, the pointer `worker_proc` hands to the
+callback and the allocation-failure return of `submit` on top of the base model.  `XReachable cfg n xs` = some
+finite list of extended scheduler choices leads from `xinit n` to `xs`. -/
+
+/-- **Extended executions are base executions.**  The base component of every state an extended execution
+reaches is reachable in the base model — so every theorem above (`fifo`, `at_most_once`, `no_deadlock`, …) holds
+of it, whatever `set_worker_ptr` calls and failed allocations are interleaved. -/
+theorem x_projects {cfg : Cfg} {n : Nat} {xs : XState} (hr : XReachable cfg n xs) : Reachable cfg n xs.base :=
+  xreachable_base hr
+
+/-- executions of the extended model as literal lists of choices -/
+theorem xrun_reachable (cfg : Cfg) (n : Nat) (cs : List XChoice) : XReachable cfg n (xrun cfg (xinit n) cs) := by
+  suffices h : ∀ xs, XReachable cfg n xs → XReachable cfg n (xrun cfg xs cs) from h _ .init
+  induction cs with
+  | nil => intro xs hxs; exact hxs
+  | cons c cs ih =>
+    intro xs hxs
+    unfold xrun
+    split
+    · rename_i xs' hstep
+      exact ih xs' (.step c hxs hstep)
+    · exact ih xs hxs
+
+/-- **No two workers use the same per-worker context at the same time.**  Usage discipline (what the block
+processor does, block_processor.c `set_worker_ptr(i, worker_i)` with one `worker_data_t` per worker): every
+non-NULL pointer ever passed to `set_worker_ptr` belongs to one worker (`own p`).  Then in every state of every
+execution — `set_worker_ptr` may be called at any time, also while callbacks run, any number of times — the
+contexts two distinct workers' running callbacks are using are different.  (`ctxInUse xs i` is the pointer
+worker `i` read from its own `user` field when it entered the callback it is in.) -/
+theorem ctx_exclusive_users {cfg : Cfg} {n : Nat} {xs : XState} (own : Nat → Nat) (hr : XReachable cfg n xs)
+    (hd : ∀ i p, XEvent.setPtr i p ∈ xs.log → p ≠ 0 → own p = i) (i j p q : Nat) (hij : i ≠ j)
+    (hi : ctxInUse xs i = some p) (hj : ctxInUse xs j = some q) (hp : p ≠ 0) : p ≠ q := by
+  have hX := invX_reachable own hr hd
+  intro hpq
+  have h1 : xs.ctxAt[i]? = some p := by
+    unfold ctxInUse at hi; split at hi
+    · exact hi
+    · simp at hi
+  have h2 : xs.ctxAt[j]? = some q := by
+    unfold ctxInUse at hj; split at hj
+    · exact hj
+    · simp at hj
+  have e1 := hX.ctxAt i p h1 hp
+  have e2 := hX.ctxAt j q h2 (by rw [← hpq]; exact hp)
+  rw [← hpq] at e2
+  exact hij (e1.symm.trans e2)
+
+/-- a context is in use exactly while its worker is inside the callback, and it is the value the worker's
+`user` field had when the callback was entered: entering the callback (the step in which worker `i` takes an
+item from the queue) reads `users[i]`, logs the `enter` event with it, and leaves every other worker's context
+alone -/
+theorem ctx_read_at_entry {cfg : Cfg} {n : Nat} {xs xs' : XState} (hr : XReachable cfg n xs) (i : Nat) (spur : Bool)
+    (it : Item) (hs : xstep cfg xs (.base (.worker i spur)) = some xs')
+    (hold : ∀ it', xs.base.workers[i]? ≠ some (.working it'))
+    (hnew : xs'.base.workers[i]? = some (.working it)) :
+    ctxInUse xs' i = some (xs.users.getD i 0) ∧
+    xs'.log = xs.log ++ [.enter i (xs.users.getD i 0) it.data] ∧
+    xs'.users = xs.users ∧ ∀ j, j ≠ i → xs'.ctxAt[j]? = xs.ctxAt[j]? := by
+  obtain ⟨_, hlc, hlw⟩ := xlens_reachable hr
+  have hi : i < xs.ctxAt.length := by
+    have := (List.getElem?_eq_some_iff.1 hnew).1
+    have hl := step_length cfg (.worker i spur) (s := xs.base) (s' := xs'.base)
+    simp only [xstep] at hs
+    unfold xstepWorker at hs
+    split at hs
+    · simp at hs
+    · rename_i b' hb
+      have hb' : xs'.base = b' := by
+        split at hs
+        · simp only [Option.some.injEq] at hs; subst hs; rfl
+        · split at hs <;> (simp only [Option.some.injEq] at hs; subst hs; rfl)
+      rw [hb'] at hl this
+      have := hl (by simp only [step]; exact hb)
+      omega
+  simp only [xstep] at hs
+  unfold xstepWorker at hs
+  split at hs
+  · simp at hs
+  · split at hs
+    · rename_i it' hw
+      exact absurd hw (hold it')
+    · split at hs
+      · rename_i it2 hw2
+        simp only [Option.some.injEq] at hs; subst hs
+        simp only at hnew
+        rw [hw2] at hnew
+        simp only [Option.some.injEq, WPc.working.injEq] at hnew
+        subst hnew
+        refine ⟨?_, rfl, rfl, ?_⟩
+        · unfold ctxInUse
+          simp only [hw2]
+          rw [List.getElem?_set]
+          simp [hi]
+        · intro j hj
+          rw [List.getElem?_set]
+          simp [Ne.symm hj]
+      · rename_i hnw
+        simp only [Option.some.injEq] at hs; subst hs
+        exact absurd hnew (hnw it)
+
+/-- **`set_worker_ptr` returns at once and does not disturb a running callback**: at its lock the main thread is
+always enabled; the step stores the pointer and changes nothing else — in particular not the context any running
+callback is using. -/
+theorem set_worker_ptr_returns (cfg : Cfg) (xs : XState) (i p : Nat) (h : xs.setPtr = some (i, p)) :
+    ∃ xs', xstep cfg xs (.base (.main (.cont false))) = some xs' ∧ xs'.setPtr = none ∧
+      xs'.users = xs.users.set i p ∧ xs'.base = xs.base ∧ xs'.log = xs.log ∧ ∀ w, ctxInUse xs' w = ctxInUse xs w := by
+  refine ⟨{ xs with users := xs.users.set i p, setPtr := none }, ?_, rfl, rfl, rfl, rfl, fun w => rfl⟩
+  simp [xstep, h]
+
+/-- **`submit` with a failing `calloc`**: if the `recycle` list is empty the call returns −1 (the `oom` event) and
+nothing else changes — no ticket is consumed, nothing is enqueued, no thread is woken; if `recycle` is not empty
+`calloc` is not called and the call is an ordinary `submit`. -/
+theorem submit_oom (cfg : Cfg) (xs : XState) (d : Nat) (hm : xs.base.main = .idle) (hp : xs.setPtr = none) :
+    (xs.base.recycle = 0 → xstep cfg xs (.submitOom d) = some { xs with log := xs.log ++ [.oom d] }) ∧
+    (xs.base.recycle ≠ 0 → xstep cfg xs (.submitOom d) = xstep cfg xs (.base (.main (.call (.submit d))))) := by
+  constructor
+  · intro h0; simp [xstep, hm, hp, h0]
+  · intro h0; simp [xstep, hm, hp, h0]
+
+/-- **No dead-lock in the extended model** (repaired `dequeue`, at least one worker): whenever the main thread is
+inside a call — `set_worker_ptr` included — some thread can take a strict step that is not a new API call. -/
+theorem x_no_deadlock {cfg : Cfg} {n : Nat} {xs : XState} (hrep : cfg.repaired = true) (hn : 0 < n)
+    (hr : XReachable cfg n xs) (hcall : xmainInCall xs = true) :
+    ∃ bc xs', bc.strict = true ∧ (∀ op, bc ≠ .main (.call op)) ∧ xstep cfg xs (.base bc) = some xs' := by
+  cases hsp : xs.setPtr with
+  | some ip =>
+    obtain ⟨i, p⟩ := ip
+    obtain ⟨xs', h, _⟩ := set_worker_ptr_returns cfg xs i p hsp
+    exact ⟨.main (.cont false), xs', rfl, by intro op; simp, h⟩
+  | none =>
+    have hb : mainInCall xs.base = true := by
+      simpa [xmainInCall, hsp] using hcall
+    obtain ⟨c, s', hc, hs⟩ := no_deadlock hrep hn (x_projects hr) hb
+    unfold stepStrict at hs
+    split at hs
+    · rename_i hstrict
+      cases c with
+      | main mc =>
+        simp only [step] at hs
+        exact ⟨.main mc, { xs with base := s' }, hstrict, hc, by simp [xstep, hsp, hs]⟩
+      | worker i spur =>
+        simp only [step] at hs
+        obtain ⟨xs', hx, _⟩ := xstepWorker_isSome cfg xs i spur hs
+        exact ⟨.worker i spur, xs', hstrict, hc, by simp only [xstep]; exact hx⟩
+    · simp at hs
+
+/-- … as a statement about the `dl=` flag the driver and the harness print -/
+theorem x_no_deadlock_flag {cfg : Cfg} {n : Nat} {xs : XState} (hrep : cfg.repaired = true) (hn : 0 < n)
+    (hr : XReachable cfg n xs) : xisDeadlock xs = false := by
+  cases hsp : xs.setPtr with
+  | some ip => simp [xisDeadlock, xmainContEnabled, hsp]
+  | none =>
+    have := no_deadlock_flag hrep hn (x_projects hr)
+    simpa [xisDeadlock, xmainInCall, xmainContEnabled, hsp, isDeadlock] using this
+
+/-! ### the granularity of the base model is sound: lock/unlock granularity refines it -/
+
+/-- **Refinement.**  Every execution of the model at lock/unlock granularity (`Model/C09PoolFine.lean`: every step that
+passes through the mutex split into lock granted / critical section / lock-free tail, with lock-free segments of other
+threads interleaved anywhere, the tails' effects happening late) reaches only states whose abstraction `fabs` —
+complete the main thread's pending tail, read a worker that has unlocked as being where its tail takes it — is reachable
+in the base model.  So each base-model step is atomic *in effect*: nothing a thread does between its unlock and its next
+blocking point can be observed by, or depends on, what other threads do meanwhile. -/
+theorem fine_refines_coarse {cfg : Cfg} {n : Nat} {fs : FState} (hr : FReachable cfg n fs) :
+    Reachable cfg n (fabs fs) := freachable_abs hr
+
+/-- literal schedules at fine granularity -/
+theorem frun_reachable (cfg : Cfg) (n : Nat) (cs : List Choice) : FReachable cfg n (frun cfg (finit n) cs) := by
+  suffices h : ∀ fs, FReachable cfg n fs → FReachable cfg n (frun cfg fs cs) from h _ .init
+  induction cs with
+  | nil => intro fs hfs; exact hfs
+  | cons c cs ih =>
+    intro fs hfs
+    unfold frun
+    split
+    · rename_i fs' hstep
+      exact ih fs' (.step c hfs hstep)
+    · exact ih fs hfs
+
+/-- **Mutual exclusion** at fine granularity: while the main thread holds the mutex no worker does, and two workers
+never hold it together. -/
+theorem fine_mutex {cfg : Cfg} {n : Nat} {fs : FState} (hr : FReachable cfg n fs) :
+    (fs.fm.isLocked = true → ∀ (j : Nat) (w : FW), fs.fw[j]? = some w → w.isLocked = false) :=
+  mx_reachable hr
+
+/-- **Safety at fine granularity**, on the fine state's own history: FIFO, and no ticket's callback runs twice. -/
+theorem fine_safety {cfg : Cfg} {n : Nat} {fs : FState} (hr : FReachable cfg n fs) :
+    fs.returned <+: fs.submitted ∧ (fs.started.map (·.2.ticket)).Nodup := by
+  have hR := fine_refines_coarse hr
+  have h1 := fifo hR
+  have h2 := (at_most_once hR).1
+  have hsub : (fabs fs).submitted = fs.submitted := by
+    unfold fabs applyTail; split <;> rfl
+  have hst : (fabs fs).started = fs.started := by
+    unfold fabs applyTail; split <;> rfl
+  have hret : fs.returned <+: (fabs fs).returned := by
+    unfold fabs applyTail
+    split <;> first | exact prefix_append _ _ | exact prefix_rfl
+  rw [hsub] at h1
+  rw [hst] at h2
+  exact ⟨hret.trans h1, h2⟩
+
+/-- **No dead-lock at fine granularity** (repaired `dequeue`, at least one worker, no spurious wake-ups needed): whenever the
+main thread is inside an API call — at a blocking point, holding the mutex, or in a lock-free tail — some thread can take a
+step that is not a new API call. -/
+theorem fine_no_deadlock {cfg : Cfg} {n : Nat} {fs : FState} (hrep : cfg.repaired = true) (hn : 0 < n)
+    (hr : FReachable cfg n fs) (hcall : fmainInCall fs = true) :
+    ∃ c fs', c.strict = true ∧ (∀ op, c ≠ .main (.call op)) ∧ fstep cfg fs c = some fs' := by
+  have mk : ∀ c : Choice, c.strict = true → (∀ op, c ≠ .main (.call op)) → (fstep cfg fs c).isSome = true →
+      ∃ c fs', c.strict = true ∧ (∀ op, c ≠ .main (.call op)) ∧ fstep cfg fs c = some fs' := by
+    intro c h1 h2 h3
+    obtain ⟨fs', h⟩ := Option.isSome_iff_exists.1 h3
+    exact ⟨c, fs', h1, h2, h⟩
+  have mainC : ∀ op, Choice.main (.cont false) ≠ .main (.call op) := by intro op; simp
+  cases hfm : fs.fm with
+  | locked l =>
+    cases l <;> exact mk (.main (.cont false)) rfl mainC (by simp [fstep, fstepMain, hfm])
+  | unlocked t =>
+    exact mk (.main (.cont false)) rfl mainC (by simp [fstep, fstepMain, hfm])
+  | «at» pc =>
+    by_cases hall : ∀ (j : Nat) (w : FW), fs.fw[j]? = some w → ∃ pc', w = .at pc'
+    · -- every thread is at a blocking point of the base model: the mutex is free, use the base model's theorem
+      have hfree : mutexFree fs = true := by
+        simp only [mutexFree, hfm, FM.isLocked, Bool.not_false, Bool.true_and, List.all_eq_true]
+        intro w hw
+        obtain ⟨j, hj⟩ := List.getElem?_of_mem hw
+        obtain ⟨pc', hpc⟩ := hall j w hj
+        subst hpc; rfl
+      have hab : fabs fs = fbase fs := fabs_of_at fs pc hfm
+      have hR : Reachable cfg n (fbase fs) := by rw [← hab]; exact freachable_abs hr
+      have hmain : (fbase fs).main = pc := by simp [fbase, hfm, absM]
+      have hic : mainInCall (fbase fs) = true := by
+        unfold fmainInCall at hcall
+        rw [hfm] at hcall
+        unfold mainInCall
+        rw [hmain]
+        cases pc <;> simp_all
+      obtain ⟨c, s', hc, hs⟩ := no_deadlock hrep hn hR hic
+      unfold stepStrict at hs
+      split at hs
+      · rename_i hstrict
+        cases c with
+        | main mc =>
+          cases mc with
+          | call op => exact absurd rfl (hc op)
+          | cont spur =>
+            have hsp : spur = false := by cases spur <;> simp_all [Choice.strict]
+            subst hsp
+            simp only [step] at hs
+            unfold stepMain at hs
+            rw [hmain] at hs
+            cases pc with
+            | idle => simp at hs
+            | finished => simp at hs
+            | submitLock d => exact mk (.main (.cont false)) rfl mainC (by simp [fstep, fstepMain, hfm, hfree])
+            | deqLock => exact mk (.main (.cont false)) rfl mainC (by simp [fstep, fstepMain, hfm, hfree])
+            | statusLock => exact mk (.main (.cont false)) rfl mainC (by simp [fstep, fstepMain, hfm, hfree])
+            | destroyLock => exact mk (.main (.cont false)) rfl mainC (by simp [fstep, fstepMain, hfm, hfree])
+            | deqWait sig =>
+              cases sig with
+              | true => exact mk (.main (.cont false)) rfl mainC (by simp [fstep, fstepMain, hfm, hfree])
+              | false => simp at hs
+            | join i =>
+              simp only at hs
+              split at hs
+              · rename_i hex
+                have hfi : fs.fw[i]? = some (.at .exited) := by
+                  rw [fbase_workers_get] at hex
+                  cases hw : fs.fw[i]? with
+                  | none => rw [hw] at hex; simp at hex
+                  | some w =>
+                    obtain ⟨pc', hpc⟩ := hall i w hw
+                    subst hpc
+                    rw [hw] at hex
+                    simp only [Option.map_some, absW, Option.some.injEq] at hex
+                    rw [hex]
+                by_cases hlt : i + 1 < fs.fw.length
+                · exact mk (.main (.cont false)) rfl mainC (by simp [fstep, fstepMain, hfm, hfi, hlt])
+                · exact mk (.main (.cont false)) rfl mainC (by simp [fstep, fstepMain, hfm, hfi, hlt])
+              · simp at hs
+        | worker i spur =>
+          have hsp : spur = false := by cases spur <;> simp_all [Choice.strict]
+          subst hsp
+          simp only [step] at hs
+          unfold stepWorker at hs
+          rw [fbase_workers_get] at hs
+          cases hw : fs.fw[i]? with
+          | none => rw [hw] at hs; simp at hs
+          | some w =>
+            obtain ⟨pc', hpc⟩ := hall i w hw
+            subst hpc
+            rw [hw] at hs
+            simp only [Option.map_some, absW] at hs
+            cases pc' with
+            | start => exact mk (.worker i false) rfl (by intro op; simp) (by simp [fstep, fstepWorker, hw, hfree])
+            | waitQ sig =>
+              cases sig with
+              | true => exact mk (.worker i false) rfl (by intro op; simp) (by simp [fstep, fstepWorker, hw, hfree])
+              | false => simp at hs
+            | working it => exact mk (.worker i false) rfl (by intro op; simp) (by simp [fstep, fstepWorker, hw])
+            | finishing it rc => exact mk (.worker i false) rfl (by intro op; simp) (by simp [fstep, fstepWorker, hw, hfree])
+            | exited => simp at hs
+      · simp at hs
+    · -- some worker is past a lock acquisition or an unlock: it can go on
+      have : ∃ (j : Nat) (w : FW), fs.fw[j]? = some w ∧ ∀ pc', w ≠ .at pc' := by
+        apply Classical.byContradiction
+        intro hne
+        apply hall
+        intro j w hj
+        apply Classical.byContradiction
+        intro hnp
+        exact hne ⟨j, w, hj, fun pc' he => hnp ⟨pc', he⟩⟩
+      obtain ⟨j, w, hj, hw⟩ := this
+      obtain ⟨fs', h⟩ := fw_phase_steps cfg fs j w hj hw
+      exact ⟨.worker j false, fs', rfl, by intro op; simp, by simp only [fstep]; exact h⟩
+
+
 /-! ### non-vacuity -/
 
 /-- a concrete execution (2 workers, items 7 and 9, worker 1 overtakes worker 0) that reaches a state where
@@ -680,5 +1001,37 @@ example :
        .main (.call .dequeue), .main (.cont false), .main (.call .getStatus), .main (.cont false)]
     s.main = .idle ∧ s.calls = [.submit 7, .submit 9, .dequeue, .getStatus] ∧
     s.rets = [.submit 0, .submit 0, .deq (some 7), .status 0] := by decide
+
+/-- the hypotheses of `ctx_exclusive_users` are satisfiable non-trivially: two workers, pointers 11 and 22,
+worker 0 is re-pointed to 33 *while its callback runs* — it keeps using 11, worker 1 uses 22 -/
+example :
+    let cfg : Cfg := ⟨true, fun _ => 0⟩
+    let xs := xrun cfg (xinit 2)
+      [.setPtr 0 11, .base (.main (.cont false)), .setPtr 1 22, .base (.main (.cont false)),
+       .base (.main (.call (.submit 5))), .base (.main (.cont false)),
+       .base (.main (.call (.submit 6))), .base (.main (.cont false)),
+       .base (.worker 0 false), .setPtr 0 33, .base (.worker 1 false), .base (.main (.cont false))]
+    ctxInUse xs 0 = some 11 ∧ ctxInUse xs 1 = some 22 ∧ xs.users = [33, 22] ∧
+    xs.log = [.setPtr 0 11, .setPtr 1 22, .enter 0 11 5, .setPtr 0 33, .enter 1 22 6] := by decide
+
+/-- `submit_oom`: first call on a fresh pool (empty `recycle`) fails and leaves the pool untouched -/
+example :
+    let cfg : Cfg := ⟨true, fun _ => 0⟩
+    let xs := xrun cfg (xinit 1) [.submitOom 4]
+    xs.base = init 1 ∧ xs.log = [.oom 4] := by decide
+
+/-- a fine execution in which main's `destroy` tail is still pending while a worker, woken by the broadcast, already
+re-checks the status: 1 worker; `destroy` call, lock granted, critical section (status −1, broadcast, unlock); then the
+worker wakes, takes the lock and leaves its loop *before* the main thread has run the tail that brings it to
+`pthread_join` — the hypotheses of `fine_refines_coarse` cover schedules the base model's granularity cannot express -/
+example :
+    let cfg : Cfg := ⟨true, fun _ => 0⟩
+    let fs := frun cfg (finit 1)
+      [.worker 0 false, .worker 0 false,                                  -- lock granted, queue empty: cond_wait
+       .main (.call .destroy), .main (.cont false), .main (.cont false),  -- call, lock granted, critical section
+       .worker 0 false, .worker 0 false]                                  -- woken: lock granted, critical section
+    fs.fm = .unlocked .destroy ∧ fs.fw = [.unlocked none] ∧ fs.status = -1 ∧
+    (fabs fs).main = .join 0 ∧ (fabs fs).workers = [.exited] := by decide
+
 
 end Sqfs.C09
